@@ -223,6 +223,22 @@ def pure_protocol(rep, tier):
         M.call("hkdf_extract", h.hkdf_extract, msg, dst, repeat=False)
         return True
     core.explore(run_xmd, on_path=lambda pth: None, ctx_kwargs=dict(branch_timeout_ms=30000))
+
+    def run_mut(ctx):
+        """the same byte-string functions on BYTEARRAY arguments (mutable shadows: an in-place += / extend on an alias of an
+        argument writes through and is seen by the argument fingerprint of the monitor)"""
+        ctx.hash_uf = True
+        ctx.unwind = 2
+        ctx.sym_bytearray = True
+        msg, dst = SymBytes.var("msg", 0, 4).thawed(), SymBytes.var("dst", 0, 300).thawed()
+        n = SymZ.var("n", 0, 64)
+        M.call("hkdf_extract(bytearray, bytearray)", h.hkdf_extract, msg, dst, repeat=False)
+        L = SymZ.var("L", 0, 64)
+        M.call("hkdf_expand(bytearray, bytearray, L)", h.hkdf_expand, msg, dst, L, repeat=False)
+        a, b_ = SymBytes.var("xa", length=32).thawed(), SymBytes.var("xb", length=32).thawed()
+        M.call("xor(bytearray, bytearray)", h.xor, a, b_, repeat=False)
+        return True
+    core.explore(run_mut, on_path=lambda pth: None, ctx_kwargs=dict(branch_timeout_ms=30000), max_paths=200)
     # ciphersuites over the ideal model (abstract bytes)
     from symx.blsmodel import World
     from symx.sbytes import AbsBytes
